@@ -279,7 +279,7 @@ impl C26 {
                 let k = *rng.pick(&["ChannelClosedUnexpectedly", "WorkerDied", "RequestTimedOut"]);
                 line = format!("fatal h={h} a={a} kind={k}");
                 tag = "ev/fatal";
-            } else if inadmissible_left > 0 && rng.chance(1, 6) && a >= 1 && h + a + 8 <= POOL {
+            } else if inadmissible_left > 0 && rng.chance(1, 2) && a >= 1 && h + a + 8 <= POOL {
                 inadmissible_left -= 1;
                 if rng.bool() {
                     // over-long answer starting at the right height
@@ -351,7 +351,8 @@ impl Prop for C26 {
         // take_next_batch directly
         let tn = if thorough { 3000 } else { 300 };
         for _ in 0..tn {
-            let limit = *rng.pick(&[0u64, 1, 2, 7, 8, 9, 63, 64, 65, u64::MAX, rng.range(0, 100)]);
+            let rl = rng.range(0, 100);
+            let limit = *rng.pick(&[0u64, 1, 2, 7, 8, 9, 63, 64, 65, u64::MAX, rl]);
             let r = match rng.below(12) {
                 0 => "none".to_string(),
                 1 => format!("0-{}", u64::MAX),
@@ -392,7 +393,7 @@ impl Prop for C26 {
             };
             let s = rng.range(1, POOL - 2100);
             let mode = match k % 10 {
-                0 => 4,
+                0 | 3 => 4,
                 1 => 5,
                 2 => 6,
                 _ => 3,
@@ -408,6 +409,20 @@ impl Prop for C26 {
     }
     fn run(&mut self, line: &str) -> String {
         self.exec(line)
+    }
+    fn result_tag(&self, _line: &str, result: &str) -> Option<String> {
+        let class = if result.contains(" done=") {
+            "done"
+        } else if result.contains(" fail=") {
+            "fail"
+        } else if result.contains("reqs=-") {
+            "no-new-request"
+        } else if result.contains("reqs=") {
+            "new-request"
+        } else {
+            result.split(' ').next().unwrap_or("")
+        };
+        Some(class.to_string())
     }
 }
 
